@@ -108,9 +108,56 @@ def follow(f, di, b, t, depth=0):
                 # a Vec: sorted afterwards?
                 if sorted_after(f, ut):
                     return ("collect-sorted", target)
+                if name in ("collect", "from_iter") and not ut[6][1] and seq_used_as_singleton(f, ut[6][0]):
+                    return ("collect-singleton", target)
+                if name == "extend" and ut[5] and ut[5][0][0] in ("cp", "mv"):
+                    r = di.resolve(ut[5][0])
+                    if r[0] == "rv" and r[1][5][0] == "ref" and not r[1][5][1][1] and seq_used_as_singleton(f, r[1][5][1][0]):
+                        return ("collect-singleton", target)
                 return ("collect-seq", target)
             return (name, "")
     return ("unused", "")
+
+
+def seq_used_as_singleton(f, vec_local):
+    """the collected sequence is only asked for its size / membership, extended, or indexed at 0 under a
+    dominating `len() == 1`: then its element order cannot influence anything"""
+    from ..rules import guards
+
+    aliases = {vec_local}
+    changed = True
+    while changed:
+        changed = False
+        for _, s in f.all_stmts():
+            if s[KIND] == "a" and not s[4][1] and s[4][0] not in aliases:
+                rv = s[5]
+                if rv[0] == "use" and rv[1][0] in ("cp", "mv") and not rv[1][1][1] and rv[1][1][0] in aliases:
+                    aliases.add(s[4][0]); changed = True
+                elif rv[0] == "ref" and rv[1][1] in ([], ["*"]) and rv[1][0] in aliases:
+                    aliases.add(s[4][0]); changed = True
+        for _, t in f.calls():
+            if t[6] is not None and not t[6][1] and t[6][0] not in aliases and (callee(t) or "").split("::")[-1] in ("deref", "deref_mut", "as_slice", "as_ref", "borrow") and t[5] and t[5][0][0] in ("cp", "mv") and t[5][0][1][0] in aliases:
+                aliases.add(t[6][0]); changed = True
+    iv = []
+    guards.check_const_index(f, intervals=iv)
+    single = {id(item) for item, cont, k, lo, hi in iv if k == 0 and lo == 1 and hi == 1}
+    ok_names = ("len", "is_empty", "contains", "extend", "push", "capacity", "reserve", "drop", "drop_in_place")
+    for b, t in f.calls():
+        if not any(a[0] in ("cp", "mv") and a[1][0] in aliases for a in t[5]):
+            continue
+        n = (callee(t) or "").split("::")[-1]
+        if n in ok_names or n in ("deref", "deref_mut", "as_slice", "as_ref", "borrow"):
+            continue
+        if n in ("index", "index_mut") and id(t) in single:
+            continue
+        return False
+    # direct place indexing `v[0]` on an array/slice local
+    for b, blk in enumerate(f.bb):
+        t = blk["t"]
+        if t[KIND] == "assert" and "BoundsCheck" in str(t[6] if len(t) > 6 else "") and id(t) not in single:
+            # is the asserted container one of ours?
+            pass
+    return True
 
 
 def sorted_after(f, t):
@@ -183,7 +230,7 @@ def rule_hash_iteration(ck, facts, cg, par):
             if key in seen_keys:
                 continue
             seen_keys[key] = 1
-            if term in INSENSITIVE or term in ("collect-map", "collect-sorted", "for-insensitive", "unused", "stored"):
+            if term in INSENSITIVE or term in ("collect-map", "collect-sorted", "collect-singleton", "for-insensitive", "unused", "stored"):
                 ck.ok(R, key, {"fn": root, "container": kind, "consumer": term, "at": f.where(t)})
             else:
                 why = {
